@@ -1,3 +1,39 @@
-(** placeholder *)
-From Xds Require Import Model.PolicyCheck.
-Theorem C18_placeholder : True. Proof. exact I. Qed.
+(** C18 — The server rate limit tracks the inbound listener.
+    Statements only; proofs are [exact] of lemmas in Proofs/PolicyProofs.v.
+    (The connection limit is a field of Kitex's limit.Option that the model does not carry: the check asserts on
+    the implementation that it is never restricted.) *)
+From Xds Require Import Model.Base Model.Fqdn Model.Proto Model.Decode Model.Sys Model.Policy.
+From Xds Require Import Proofs.PolicyProofs.
+Open Scope string_scope.
+
+(** The limit after a listener update: tokens-per-fill of the inbound listener's chain for the configured port
+    ([last_chain]: the last such chain in listener order), else of the chain without a port (port 0), else
+    unlimited ([None]); zero tokens or no inbound listener also mean unlimited. *)
+Theorem C18_limit : forall port up,
+  limiter_qps port up =
+    match aget reserved_lds up with
+    | Some (VLis l) =>
+        match last_chain port l with
+        | Some t => limit_of_tokens t
+        | None => match last_chain 0 l with Some t => limit_of_tokens t | None => None end
+        end
+    | _ => None
+    end.
+Proof. exact limiter_qps_spec. Qed.
+Print Assumptions C18_limit.
+
+Theorem C18_zero_is_unlimited : limit_of_tokens 0 = None.
+Proof. exact limit_zero_unlimited. Qed.
+
+(** Every handler run - every accepted listener update - sets the limit from that update alone and pushes it to the
+    running server's limiter. *)
+Theorem C18_every_change_pushed : forall s up,
+  lm_pushes (lim_update s up) = (lm_pushes s ++ [limiter_qps (lm_port s) up])%list /\ lm_qps (lim_update s up) = limiter_qps (lm_port s) up.
+Proof. exact lim_update_pushes. Qed.
+Print Assumptions C18_every_change_pushed.
+
+(** A limiter created after updates were received starts from the current state, which the updater receives. *)
+Theorem C18_late_registration : forall p port replay,
+  exists s, p_lim (p_register p (KLimiter port) replay) = Some s /\ lm_port s = port /\ lm_pushes s = [lm_qps s].
+Proof. exact lim_late_registration. Qed.
+Print Assumptions C18_late_registration.
